@@ -92,3 +92,6 @@ META = {
              "strings (flag test b&0x11 == 0x11) and ignores base64 decoding errors (valid address + trailing garbage is accepted)."),
     'technique': 'Coq proofs (CRC linearity + exhaustive 48x63 syndrome check lifted to all addresses; bit-level shard/anycast algebra) + extracted-model correspondence + translated table/literal obligations',
 }
+
+# ROUND-8-APPEND
+PROP['rule'] += ' ROUND 8: the lite-server forms (c17_r8.go): for every generated account id (all int32 workchains) tl.Marshal(liteclient.AccountID(id)) equals id.MarshalTL(), decodes back to id and decodes as liteServer.accountId with the same fields (tl-liteserver-account); block ids of the same workchain through liteclient.BlockIDExt / TonNodeBlockIdExtC.ToBlockIdExt against ton.BlockIDExt.MarshalTL / UnmarshalTL (tl-liteserver-block).'
